@@ -127,7 +127,18 @@ def _byname(net, et, nums):
     return out
 
 
+CORE = [["create_group", "idx_line_load"], ["attach_to_group", 0, "line", [0, 2], None], ["attach_to_group", 1, "load", [0, 2], None],
+        ["attach_to_group", 1, "trafo3w", [0], None], ["detach_from_group", 0, "load", [2, 3]], ["detach_from_group", 1, "line", [0]],
+        ["detach_from_groups", "line", [1]], ["drop_group", 0], ["drop_buses", "bus", [5]], ["drop_lines", "line", [1]],
+        ["reindex_elements", "line", "1to7"], ["reindex_elements", "load", "swap23"], ["reindex_elements", "group", "0to5"],
+        ["set_group_reference_column", 0, "name"], ["set_group_reference_column", 1, None], ["set_group_out_of_service", 0]]
+_CORE = set(json.dumps(o) for o in CORE)
+
+
 def ops(s, tier="quick"):
+    """tier: "quick" (27 bound ops in the initial state), "thorough" (46), "core" (16, for the deepest bound)"""
+    if tier == "core":
+        return [o for o in ops(s, "thorough") if json.dumps(o) in _CORE]
     if s["dead"]:
         return []
     net, model = s["net"], s["model"]
